@@ -52,6 +52,16 @@ def cases(tier):
         out.append({'family': 'cf2d', 'ny': a, 'nx': b, 'geometry': 'skew'})
         out.append({'family': 'shoc_simple', 'ny': a, 'nx': b})
         out.append({'family': 'shoc_standard', 'nj': a, 'ni': b})
+    for (a, b) in [(2, 3), (3, 1), (4, 2)] + ([] if tier == 'quick' else [(1, 4), (5, 3)]):
+        # the convention constructed by hand with explicit coordinate names, then bound
+        out.append({'family': 'cf1d', 'ny': a, 'nx': b, 'names': 'other', 'explicit_names': True})
+        out.append({'family': 'cf2d', 'ny': a, 'nx': b, 'explicit_names': True})
+        out.append({'family': 'shoc_standard', 'nj': a, 'ni': b, 'explicit_names': True})
+    # grids with more cells than a narrow integer type can count (indexes given as numpy int8 / uint8 / int16)
+    out.append({'family': 'cf1d', 'ny': 12, 'nx': 12, 'bounds': 'var', 'nt': 1, 'nk': 1, 'narrow': True})
+    out.append({'family': 'shoc_standard', 'nj': 16, 'ni': 17, 'nt': 1, 'nk': 1, 'narrow': True})
+    if tier == 'thorough':
+        out.append({'family': 'cf2d', 'ny': 190, 'nx': 180, 'bounds': 'derived', 'nt': 1, 'nk': 1, 'narrow': True})
     for mesh in meshes:
         out.append({'family': 'ugrid', 'mesh': mesh})
         out.append({'family': 'ugrid', 'mesh': mesh, 'supplied': ['edge_node'], 'edge_dim': 'declared'})
@@ -94,10 +104,43 @@ def same_index(a, b) -> bool:
     return True
 
 
+def narrow_probes(rec, fp, case, convention, truth, grid_size):
+    """Index components given as the narrowest numpy integer types that hold them, on grids whose linear
+    indexes do not fit those types."""
+    for kind, info in truth.kinds.items():
+        shape = tuple(info['shape'])
+        size = int(np.prod(shape))
+        kind_obj = builders.grid_kind_object(truth, kind)
+        rec.check(grid_size.get(kind) == size, f"{fp}/{kind}/grid-size", "grid size", size, grid_size.get(kind))
+        corners = [tuple(s - 1 for s in shape), tuple(s // 2 for s in shape), (shape[0] - 1, 0), (0, shape[1] - 1), (shape[0] - 1, 1)]
+        for dtype in (np.int8, np.uint8, np.int16, np.uint16, np.int32, np.int64):
+            if max(shape) - 1 > np.iinfo(dtype).max:
+                continue
+            for multi in corners:
+                want = row_major_ravel(multi, shape)
+                native = builders.native_index(truth, kind, multi)
+                typed = tuple(dtype(v) if isinstance(v, int) and not isinstance(v, bool) else v for v in native)
+                try:
+                    got = lib(convention.ravel_index, typed)
+                    rec.check(int(got) == want, f"{fp}/{kind}/narrow-integer-index", f"ravel_index({multi} as {dtype.__name__}) on shape {shape}", want, got)
+                except LibraryRaised as err:
+                    rec.check(False, f"{fp}/{kind}/narrow-integer-index", f"ravel_index({multi} as {dtype.__name__}) raised", want, str(err))
+            n = size - 1
+            if n <= np.iinfo(dtype).max:
+                try:
+                    got = lib(convention.wind_index, dtype(n), grid_kind=kind_obj)
+                    want_native = builders.native_index(truth, kind, row_major_unravel(n, shape))
+                    rec.check(same_index(got, want_native), f"{fp}/{kind}/narrow-integer-index", f"wind_index({dtype.__name__}({n}))", want_native, got)
+                except LibraryRaised as err:
+                    rec.check(False, f"{fp}/{kind}/narrow-integer-index", f"wind_index({dtype.__name__}({n})) raised", 'index', str(err))
+    rec.outcome([truth.family, 'narrow'])
+    return rec.result()
+
+
 def run_case(case):
     rec = Recorder()
     ds, truth = builders.build(case)
-    convention = ds.ems
+    convention = builders.get_convention(ds, truth, case)
     family = truth.family
     fp = f"C01/{family}"
 
@@ -108,6 +151,9 @@ def run_case(case):
         rec.nontrivial('multi-kind')
 
     grid_size = {getattr(k, 'value', k): v for k, v in convention.grid_size.items()}
+    if case.get('narrow'):
+        rec.nontrivial('narrow-integer-indexes')
+        return narrow_probes(rec, fp, case, convention, truth, grid_size)
     for kind, info in kinds.items():
         shape = tuple(info['shape'])
         size = int(np.prod(shape))
